@@ -152,6 +152,7 @@ def one_case(rec, rng, case_id):
             if via_params:
                 p[key].value = full2[key]
         x1 = x.copy()
+        out_before = out.copy() if isinstance(out, np.ndarray) else None
         if via_params:
             out2 = md.model(p, x)
         else:
@@ -161,6 +162,12 @@ def one_case(rec, rng, case_id):
         rec.evaluated(dg=(mk, full2, x1, how))
         rec.check(np.array_equal(x, x1), "input-mutated",
                   "abscissa modified by %s (second call)" % via, case2)
+        # the array handed out by the first call belongs to the caller
+        rec.check(out2 is not out and np.array_equal(out, out_before,
+                                                     equal_nan=True),
+                  "earlier-result-overwritten",
+                  "the array returned by the first evaluation was changed "
+                  "by the second one (%s, %s)" % (via, how), case2)
         judge(rec, mk, full2, x1, via + " (second call, %s)" % how, out2,
               case2)
     rec.sample({"model": mk, "params": full, "n": int(x.size), "via": via,
